@@ -18,7 +18,8 @@ from gaddlemaps.components import Atom, AtomGro, Molecule, Residue, System
 PROPERTY = "C18"
 LEVEL = "exploration"
 RULE = ("operation sequences (up to 40) over a pool seeded with a single- or multi-residue molecule built from a spec, "
-        "the molecules handed out by a System for a generated file, and the molecules stored by an Alignment: copy, "
+        "the molecules handed out by a System for a generated file, and the molecules stored by an Alignment (given to the "
+        "constructor or re-assigned through the start / end setters): copy, "
         "deep_copy, copy / deep_copy / Molecule() with the residues of another pooled molecule, residue / atom views (indexing with non-negative and negative indices, iteration), Molecule.atoms / Residue.atoms copies, move, move_to, "
         "rotate, assignment of positions, velocities (array or None), atom numbers, residue numbers, names (deep copies "
         "and unshared originals), assignment through views, assignment of a position read from another object, one "
@@ -209,9 +210,25 @@ def check(case):
         given = build_molecule(spec)
         other = build_molecule(dict(spec, name="MOLB"))
         ali = lib("alignment", Alignment, given, other)
-        add_molecule(given, base_recs, tg)
-        add_molecule(ali.start, base_recs, tg, origin=0)
-        add_molecule(ali.end, base_recs, new_top())
+        if case["seed"] % 2:
+            # the start (or end) molecule is re-assigned through the setter with another conformation
+            shifted = dict(spec, coords=(np.array(spec["coords"], float) + [0.5, -0.25, 1.0]).tolist())
+            again = build_molecule(shifted if case["seed"] % 4 == 1 else dict(shifted, name="MOLB"))
+            recs2 = spec_records(shifted)
+            if case["seed"] % 4 == 1:
+                ali.start = again
+                add_molecule(again, recs2, new_top())
+                add_molecule(ali.start, recs2, tops[0], origin=0)
+                add_molecule(ali.end, base_recs, new_top())
+            else:
+                ali.end = again
+                add_molecule(again, recs2, new_top())
+                add_molecule(ali.end, recs2, tops[0], origin=0)
+                add_molecule(ali.start, base_recs, new_top())
+        else:
+            add_molecule(given, base_recs, tg)
+            add_molecule(ali.start, base_recs, tg, origin=0)
+            add_molecule(ali.end, base_recs, new_top())
     compare(model, pool, -1, "initial")
 
     touched_copy = set()
